@@ -91,7 +91,7 @@ class WorldLayer(core.Layer):
     """block = one world; runs it in the given modes (and parameter settings) and applies the judge to each run"""
 
     def __init__(self, name, world_list, judge, modes=MODES, extras=((),), optional=False, keep_result=False, extensions=None,
-                 rule='', bounds=None, cli_every=0):
+                 rule='', bounds=None, cli_every=0, in_child=None):
         self.name = name
         self.worlds = world_list
         self.judge = judge
@@ -99,6 +99,7 @@ class WorldLayer(core.Layer):
         self.extras = extras
         self.optional = optional
         self.keep_result = keep_result
+        self.in_child = in_child        # in_child(ctx, mode, extra, obs) runs inside the run's own process; result -> obs.extra
         self.extensions = extensions
         self.rule = rule or '%d worlds x %d modes x %d parameter settings' % (len(world_list), len(modes), len(extras))
         self.bounds = bounds or {}
@@ -124,8 +125,11 @@ class WorldLayer(core.Layer):
             ctx.key = key
             for mode in self.modes:
                 ext = [e() for e in self.extensions] if self.extensions else None
+                hook = None
+                if self.in_child is not None:
+                    hook = (lambda o, _c=ctx, _m=mode, _e=extra: self.in_child(_c, _m, _e, o))
                 obs = driver.run_world(w, mode, extra=list(w.get('args', [])) + list(extra), extensions=ext,
-                                       keep_result=self.keep_result)
+                                       keep_result=self.keep_result, in_child=hook)
                 ctx.obs[mode] = obs
                 if acc is not None:
                     acc.evals += 1
@@ -466,3 +470,17 @@ def set_world(refs, pool, idxs, nrefs=3, ids=QIDS, short_ref=False):
         # a reference shorter than most queries, with the LOWEST id (it is read first): candidates must still come from all references
         order = order + [worlds.catalogue_ref(9, 'menu', 10, ref_id=1)]
     return dict(refs=order, queries=queries, desc=[pool[i][0] for i in idxs] + (['+short reference id 1'] if short_ref else []))
+
+
+def same_locus_worlds():
+    """pairs of molecules of ONE locus: an exact copy (lower id, processed first) and a variant with a small insertion, so that many
+    labels of the two molecules have identical coordinates while their seed peaks differ - state leaking from one query's scoring
+    into the next one's (caches keyed by label identity) shows as a wrong score of the second"""
+    refs = std_refs()
+    out = []
+    for ri, s, rev, i, d in ((0, 10, False, 3, 400.0), (1, 30, True, 8, 800.0), (2, 30, False, 3, -400.0), (1, 10, False, 3, 800.0)):
+        locus = worlds.window_query(refs[ri], s, 16, rev)[0][2]
+        variant = worlds.apply_edit(list(locus), ('indel', i, d))
+        out.append(dict(refs=[refs[ri]], queries=[worlds.as_map(4, locus), worlds.as_map(9, variant), worlds.as_map(30, [100.0, 20000.0])],
+                        desc=['locus r%d s%d' % (ri, s), 'same locus, indel %s @%d' % (d, i), 'unalignable']))
+    return out
